@@ -268,4 +268,11 @@ def oracle(ctx):
         if got != want:
             res.oracle_failures.append(dict(op=op, input=text, impl_output=str(av)[:500],
                                             oracle_expectation=f'{key} ({"single-valued" if kind == "str" else "boolean" if kind == "bool" else "all values"}) after {hist}: {flag} {want}, got {got}'))
+    # the same histories distributed over the main file and drop-ins (one, two, in the unit's or the template's drop-in directory,
+    # in one or two search directories — name order decides, not directory order), through the real loader
+    import filespell
+    sets = [{'c.container': t} for _, _, _, t in cases[:(300 if ctx.thorough else 60)]]
+    pick = tcases if ctx.thorough else rnd.sample(tcases, min(len(tcases), 60))
+    sets += [{rnd.choice(['t.', 'tpl@i.']) + ty: text} for ty, key, kind, flag, hist, text in pick]
+    filespell.compare(ctx, sets, ['dropin', 'two', 'two-dirs', 'two-dirs-rev', 'two-dirs', 'template-dir'], 'C15 histories over drop-ins')
     ctx.log(f'oracle: {res.oracle_evals} evaluations, {len(res.oracle_failures)} failures')
